@@ -273,6 +273,9 @@ def quantify_genexp(I, st, ge, mode):
     gens = ge.generators
     if any(g.is_async for g in gens):
         return NotImplemented
+    # the outermost iterable is evaluated once, in the caller's state: branch decisions taken while evaluating it (e.g. `xs or []`)
+    # belong to the path condition of the statement, not to a scratch copy
+    it0 = I.eval(st, gens[0].iter)
     tmp = st.fork()
     tmp.env = {"__parent__": tmp.env, "__module__": tmp.env.get("__module__")}
     bound = []
@@ -286,7 +289,7 @@ def quantify_genexp(I, st, ge, mode):
             t = I.eval_cond(s, ge.elt)
             return to_z3(t)
         g = gens[gi]
-        it = I.eval(s, g.iter)
+        it = it0 if gi == 0 else I.eval(s, g.iter)
         seq = iter_values(I, s, it, ge)
         if seq is not None:
             parts = []
